@@ -115,7 +115,7 @@ class C14(Property):
         ("antismash/common/hmmscan_refinement.py", "HMMResult.to_json"),
         ("antismash/common/hmmscan_refinement.py", "HMMResult.from_json"),
         ("antismash/common/hmmscan_refinement.py", "HMMResult.__eq__"),
-        (DI, "CDSResult.to_json"), (DI, "CDSResult.from_json"), (DI, "NRPSPKSDomains.add_to_record"),
+        (DI, "CDSResult.to_json"), (DI, "CDSResult.from_json"), (DI, "NRPSPKSDomains.add_to_record"), (DI, "generate_domain_features"),
         ("antismash/common/secmet/features/module.py", "ModuleType"),
         ("antismash/common/secmet/features/module.py", "Module.__init__"),
         ("antismash/common/secmet/features/module.py", "Module.to_biopython"),
@@ -134,7 +134,8 @@ class C14(Property):
             "detailed_names, to_json/from_json and Component; a strided enumeration of all ordered pairs of strings "
             "of length <= 2 as two-gene chains on both strands through generate_domains; chains with domain-less "
             "genes, docking-only genes, region borders and strand changes at the cuts; kind `feature`: 1-3 genes "
-            "through generate_domains + add_to_record, every aSModule feature through to_biopython/from_biopython. "
+            "through generate_domains + add_to_record, every aSModule feature through to_biopython/from_biopython, "
+            "incl. tandem duplicates (2-3 adjacent same-strand genes with identical hits) on both strands. "
             "non-trivial = at least two modules or one complete module (build/replay), a merge that happened or "
             "was refused after passing the strand/emptiness guards (pair), at least one cross-gene merge (chain), a "
             "tree with internal hits (hmm), an incomplete module with a starter/final role (feature)")
@@ -147,8 +148,10 @@ class C14(Property):
         "table fact `dt_cases_len` is re-proved on every run)",
         "get_monomer and Module.start/end are outside the statement; of the aSModule feature the location, the generic "
         "Feature qualifiers and monomer pairings are not modelled (kind `feature` compares them on the implementation only)",
-        "generate_domain_features (names/locations of the domain features) is exercised, not modelled: the model takes "
-        "the domain names from the implementation's features",
+        "of generate_domain_features the names, loci and the dict keyed by the hit are modelled (domainFeatures / tableOf); "
+        "the DNA locations, translations and the DOMAIN_TYPE_MAPPING renaming of `.domain` are exercised only",
+        "HMMResult equality/hash as dict key is modelled by equality of (label, subtype chain, start, end); the harness "
+        "uses one fixed e-value/bitscore",
         "in kind `chain` find_domains / find_subtypes / find_ab_motifs / annotate_domains are patched out "
         "(no HMMER in the sandbox); the loop itself, build and combine are the real code",
     ]
@@ -363,6 +366,27 @@ class C14(Property):
                 yield {"kind": "feature", "genes": [{"name": "gene", "strand": strand, "region": 0, "motifs": False,
                                                       "domains": [[n, [], 10 + 100 * i, 90 + 100 * i]
                                                                   for i, n in enumerate(names)]}]}
+        # tandem duplicates: adjacent same-strand genes with IDENTICAL hits (profile, coordinates, score), so
+        # that a module merged across the border borrows a domain whose equal twin sits in the holder gene
+        tandem = [["PCP", "Condensation_LCL", "AMP-binding"], ["ACP", "PKS_KS", "PKS_AT"], ["PKS_KR", "ACP", "PKS_KS", "PKS_AT"],
+                  ["PCP", "Thioesterase", "Condensation_LCL", "AMP-binding"], ["PP-binding", "CAL_domain"]]
+        for names in tandem:
+            for strand in (1, -1):
+                for copies in (2, 3):
+                    doms = [[n, [], 10 + 100 * i, 90 + 100 * i] for i, n in enumerate(names)]
+                    yield {"kind": "feature", "genes": [{"name": f"g{k}", "strand": strand, "region": 0, "motifs": False,
+                                                          "domains": [list(d) for d in doms]} for k in range(copies)]}
+        for _ in range(60 * scale):
+            syms = self.shaped(rng, rng.choice([1, 2]))
+            k = rng.randrange(len(syms) + 1)
+            syms = syms[k:] + syms[:k]          # rotate: the gene starts in the middle of a module
+            doms = []
+            for d in self.place(rng, syms, scramble=False):
+                if d[3] > d[2] and (d[0], d[2], d[3]) not in [(x[0], x[2], x[3]) for x in doms]:
+                    doms.append(d)
+            strand = rng.choice([1, -1])
+            yield {"kind": "feature", "genes": [{"name": f"g{i}", "strand": strand, "region": 0, "motifs": False,
+                                                  "domains": [list(d) for d in doms]} for i in range(rng.choice([2, 2, 3]))]}
         for _ in range(150 * scale):
             n = rng.choice([1, 1, 2, 2, 3])
             strand = rng.choice([1, -1])
@@ -557,6 +581,7 @@ class C14(Property):
     def _impl_feature(self, case: Dict[str, Any]) -> Dict[str, Any]:
         from unittest.mock import patch
         from antismash.common.secmet.features.module import Module as ModuleFeature
+        from antismash.common.secmet.record import Record
         from antismash.common.secmet.test.helpers import DummyCDS, DummyRecord, DummyRegion, DummySubRegion
         from antismash.detection.nrps_pks_domains import domain_identification as di
         genes = case["genes"]
@@ -576,7 +601,23 @@ class C14(Property):
                 patch.object(di, "find_ab_motifs", return_value={}), \
                 patch.object(di, "get_database_path", return_value=""):
             results = di.generate_domains(record)
-        results.add_to_record(record)
+        created: List[Any] = []
+        original_add = Record.add_module
+
+        def spy(self: Any, feature: Any) -> None:
+            created.append(feature)
+            original_add(self, feature)
+        with patch.object(Record, "add_module", spy):
+            results.add_to_record(record)
+        # the detection modules in the order add_to_record walks them
+        detected: List[Any] = []
+        for region in record.get_regions():
+            for cds in region.cds_children:
+                res = results.cds_results.get(cds)
+                for module in (res.modules if res else []):
+                    if not any(module is seen for seen in detected):
+                        detected.append(module)
+        assert len(created) == len(detected) == len(record.get_modules())
 
         def describe(m: Any) -> Dict[str, Any]:
             return {"domains": [[d.get_name(), d.locus_tag, int(d.location.strand)] for d in m.domains],
@@ -585,7 +626,7 @@ class C14(Property):
                     "parents": list(m.parent_cds_names)}
 
         feats = []
-        for m in record.get_modules():
+        for m, det in zip(created, detected):
             bio = m.to_biopython()
             assert len(bio) == 1
             quals = sorted([k, (None if v is None else [str(x) for x in v])] for k, v in bio[0].qualifiers.items()
@@ -597,6 +638,7 @@ class C14(Property):
             except Exception as exc:  # pylint: disable=broad-except
                 rebuilt, same_location = {"err": err_kind(exc)}, False
             feats.append({"original": describe(m), "rebuilt": rebuilt, "same_location": same_location, "quals": quals,
+                          "module_comps": [comp_json(c) for c in det],
                           "domains": [[d.get_name(), d.locus_tag, int(d.location.strand),
                                        int(d.protein_location.start), int(d.protein_location.end)] for d in m.domains]})
         return {"features": feats}
@@ -730,7 +772,7 @@ class C14(Property):
         elif kind == "hmm":
             line.update(tree=case["tree"], locus=case["locus"])
         elif kind == "feature":
-            line.update(genes=case["genes"], impl_features=[{"domains": f["domains"], "quals": f["quals"]}
+            line.update(genes=case["genes"], impl_features=[{"domains": f["domains"], "quals": f["quals"], "module_comps": f["module_comps"]}
                                                             for f in obs.get("features", [])])
         elif kind == "build":
             line.update(name=case["name"], domains=case["domains"], impl_modules=spec_view(obs.get("modules", [])))
@@ -810,22 +852,25 @@ class C14(Property):
                                  detail=f"implementation {obs.get('err', 'ok')} ({obs.get('msg', '')}) vs model {model.get('err', 'ok')}")
             problems: List[str] = []
             diffs: List[str] = []
-            if len(obs["features"]) != model["count"]:
-                diffs.append(f"{len(obs['features'])} features for {model['count']} reported modules")
-            for i, (f, mf) in enumerate(zip(obs["features"], model["features"])):
+            if len(obs["features"]) != len(model["features"]):
+                diffs.append(f"{len(obs['features'])} features for {len(model['features'])} reported modules")
+            for i, (f, mm, reread, follows) in enumerate(zip(obs["features"], model["features"], model["rereads"],
+                                                             spec["follows"])):
+                if not follows:
+                    problems.append(f"feature{i}: domains {[(d[1], d[3], d[4]) for d in f['domains']]} are not the module's "
+                                    f"components {[(c[4], c[2], c[3]) for c in f['module_comps']]} (gene by gene, in order)")
                 if f["rebuilt"] != f["original"] or not f["same_location"]:
                     problems.append(f"feature{i}: rebuilt from its saved form {f['rebuilt']} differs from the original "
                                     f"{f['original']}")
-                mm = mf["model"]
                 if "err" in mm:
-                    diffs.append(f"feature{i}: {mm['err']}")
+                    diffs.append(f"feature{i}: model {mm['err']}")
                 else:
                     if any(f["original"][k] != mm[k] for k in f["original"]):
                         diffs.append(f"feature{i}: model feature {mm} vs {f['original']}")
                     if sorted(mm["quals"]) != f["quals"]:
                         diffs.append(f"feature{i}: qualifiers {f['quals']} vs model {sorted(mm['quals'])}")
-                if mf["reread"] != f["rebuilt"]:
-                    diffs.append(f"feature{i}: from_biopython {f['rebuilt']} vs model {mf['reread']}")
+                if reread != f["rebuilt"]:
+                    diffs.append(f"feature{i}: from_biopython {f['rebuilt']} vs model {reread}")
             roles = [f for f in obs["features"] if not f["original"]["complete"]
                      and (f["original"]["starter"] or f["original"]["final"])]
             return Judgement(not diffs, not problems, in_scope=in_domain, nontrivial=bool(roles),
